@@ -483,20 +483,22 @@ func (s *Service) Collect(event alert.Event) error {
 		}
 	}
 
-	err := s.topics.Collect(event)
-	if err != nil {
-		return err
-	}
+	// The topic has taken the new state even if one of its handlers could not take the event,
+	// so the state is recorded in any case.
+	collectErr := s.topics.Collect(event)
+	var err error
 	// Events with alert.OK status should always only be resets from other statuses.
 	if event.State.Level == alert.OK && s.PersistTopics {
-		if err := s.clearHistory(&event); err != nil {
-			return fmt.Errorf("failed to clear event history for topic %q: %w", event.Topic, err)
-		} else {
-			return nil
+		if err = s.clearHistory(&event); err != nil {
+			err = fmt.Errorf("failed to clear event history for topic %q: %w", event.Topic, err)
 		}
 	} else {
-		return s.persistEventState(event)
+		err = s.persistEventState(event)
 	}
+	if collectErr != nil {
+		return collectErr
+	}
+	return err
 }
 
 func (s *Service) persistEventState(event alert.Event) error {
